@@ -15,6 +15,11 @@ package msgpipeline
 // REAL MsgPipeline - its own scripted checks, DMARC setting, destination blocks and recording
 // targets - behind destination blocks of the first one, so that the inner pipeline's own check
 // runner works on a message the outer pipeline's checks / DMARC policy may have flagged.
+// Every modifier group of the pipeline (global, source block, every destination block) holds a
+// scripted modifier; the op token `m=` says for which calls it FAILS (RewriteSender, RewriteRcpt
+// for chosen recipients, RewriteBody; temporary or permanent error): a command can fail in the
+// middle of the checks' bookkeeping - one recipient of a block accepted, a later one of the SAME
+// block failing in the block's RewriteRcpt, recipients of other blocks following, then DATA.
 //
 //   T2: the op line goes to the Lean model (Model/CheckRunner.lean); command outcomes, per-recipient
 //       results, quarantine flag, hand-offs seen by the targets and the per-state call logs are compared.
@@ -46,6 +51,7 @@ import (
 	"github.com/foxcpp/maddy/framework/exterrors"
 	"github.com/foxcpp/maddy/framework/log"
 	"github.com/foxcpp/maddy/framework/module"
+	"github.com/foxcpp/maddy/internal/modify"
 	"github.com/foxcpp/maddy/internal/verifshim/vh"
 )
 
@@ -135,6 +141,135 @@ type c06Block struct {
 
 type c06Rcpt struct{ id, blk int }
 
+// c06MF: for which calls the scripted modifiers fail (value: 't' temporary 4xx, 'p' permanent 5xx).
+type c06MF struct {
+	sender map[string]byte       // "g" | "s": RewriteSender of the global / source modifiers
+	rcpt   map[int]map[byte]byte // recipient id -> scope 'g' | 's' | 'b' (the recipient's block): RewriteRcpt
+	body   map[string]byte       // "g" | "s" | "<block>": RewriteBody
+}
+
+func c06NewMF() *c06MF {
+	return &c06MF{sender: map[string]byte{}, rcpt: map[int]map[byte]byte{}, body: map[string]byte{}}
+}
+
+func (m *c06MF) empty() bool {
+	return m == nil || (len(m.sender) == 0 && len(m.rcpt) == 0 && len(m.body) == 0)
+}
+
+func (m *c06MF) setRcpt(id int, scope, kind byte) {
+	if m.rcpt[id] == nil {
+		m.rcpt[id] = map[byte]byte{}
+	}
+	m.rcpt[id][scope] = kind
+}
+
+// rcptFault: does a modifier group fail for this recipient (any scope)
+func (m *c06MF) rcptFault(id int) bool { return m != nil && len(m.rcpt[id]) > 0 }
+
+func (m *c06MF) clone() *c06MF {
+	if m == nil {
+		return nil
+	}
+	n := c06NewMF()
+	for k, v := range m.sender {
+		n.sender[k] = v
+	}
+	for id, sc := range m.rcpt {
+		for k, v := range sc {
+			n.setRcpt(id, k, v)
+		}
+	}
+	for k, v := range m.body {
+		n.body[k] = v
+	}
+	return n
+}
+
+// String: the op token m=<sender>/<rcpt>/<body> (see Driver/C06.lean), canonical order.
+func (m *c06MF) String() string {
+	part := func(l []string) string {
+		if len(l) == 0 {
+			return "-"
+		}
+		return strings.Join(l, ",")
+	}
+	var se, rc, bo []string
+	for _, k := range []string{"g", "s"} {
+		if v, ok := m.sender[k]; ok {
+			se = append(se, k+":"+string(v))
+		}
+		if v, ok := m.body[k]; ok {
+			bo = append(bo, k+":"+string(v))
+		}
+	}
+	var ids []int
+	for id := range m.rcpt {
+		ids = append(ids, id)
+	}
+	sort.Ints(ids)
+	for _, id := range ids {
+		for _, sc := range []byte("gsb") {
+			if v, ok := m.rcpt[id][sc]; ok {
+				rc = append(rc, fmt.Sprintf("%d:%c%c", id, sc, v))
+			}
+		}
+	}
+	var blks []int
+	for k := range m.body {
+		if b, err := strconv.Atoi(k); err == nil {
+			blks = append(blks, b)
+		}
+	}
+	sort.Ints(blks)
+	for _, b := range blks {
+		bo = append(bo, fmt.Sprintf("%d:%c", b, m.body[strconv.Itoa(b)]))
+	}
+	return "m=" + part(se) + "/" + part(rc) + "/" + part(bo)
+}
+
+func c06ParseMF(tok string) (*c06MF, error) {
+	bad := errors.New("bad m= token " + tok)
+	if !strings.HasPrefix(tok, "m=") {
+		return nil, bad
+	}
+	parts := strings.Split(tok[2:], "/")
+	if len(parts) != 3 {
+		return nil, bad
+	}
+	m := c06NewMF()
+	kind := func(s string) bool { return s == "t" || s == "p" }
+	for i, part := range parts {
+		if part == "-" {
+			continue
+		}
+		for _, e := range strings.Split(part, ",") {
+			kv := strings.Split(e, ":")
+			if len(kv) != 2 {
+				return nil, bad
+			}
+			switch i {
+			case 0:
+				if (kv[0] != "g" && kv[0] != "s") || !kind(kv[1]) {
+					return nil, bad
+				}
+				m.sender[kv[0]] = kv[1][0]
+			case 1:
+				id, err := strconv.Atoi(kv[0])
+				if err != nil || len(kv[1]) != 2 || !strings.Contains("gsb", kv[1][:1]) || !kind(kv[1][1:]) {
+					return nil, bad
+				}
+				m.setRcpt(id, kv[1][0], kv[1][1])
+			default:
+				if _, err := strconv.Atoi(kv[0]); (err != nil && kv[0] != "g" && kv[0] != "s") || !kind(kv[1]) {
+					return nil, bad
+				}
+				m.body[kv[0]] = kv[1][0]
+			}
+		}
+	}
+	return m, nil
+}
+
 type c06Case struct {
 	mode    string
 	dmarc   string
@@ -146,6 +281,7 @@ type c06Case struct {
 	scripts []c06Script
 	delays  [][4]int
 	q0      bool     // MsgMetadata.Quarantine is already set when Start is called
+	mf      *c06MF   // failures of the scripted modifiers (nil: none)
 	inner   *c06Case // the pipeline behind the target of kind "px"; inner.rcpts is its routing table (id:block)
 }
 
@@ -180,6 +316,9 @@ func (c *c06Case) op() string {
 	if c.inner == nil {
 		if c.q0 {
 			f = append(f, "Q")
+		}
+		if !c.mf.empty() {
+			f = append(f, c.mf.String())
 		}
 		return "C06 run " + strings.Join(f, " ")
 	}
@@ -237,12 +376,25 @@ func c06Parse(op string) (c *c06Case, err error) {
 	switch {
 	case t[1] == "run" && len(t) == 11:
 		return c06ParseFields(t[2:])
-	case t[1] == "run" && len(t) == 12 && t[11] == "Q":
+	case t[1] == "run" && (len(t) == 12 || len(t) == 13):
+		// [Q] [m=...]
+		rest := t[11:]
 		c, err = c06ParseFields(t[2:11])
-		if err == nil {
-			c.q0 = true
+		if err != nil {
+			return nil, err
 		}
-		return c, err
+		if rest[0] == "Q" {
+			c.q0 = true
+			rest = rest[1:]
+		}
+		if len(rest) == 1 && strings.HasPrefix(rest[0], "m=") {
+			c.mf, err = c06ParseMF(rest[0])
+			rest = rest[1:]
+		}
+		if len(rest) != 0 || err != nil {
+			return nil, errors.New("bad trailing tokens of a C06 run op")
+		}
+		return c, nil
 	case t[1] == "nest" && len(t) == 21 && t[12] == "//" && (t[11] == "Q" || t[11] == "-"):
 		c, err = c06ParseFields(t[2:11])
 		if err != nil {
@@ -484,6 +636,114 @@ func (c06AuthState) CheckBody(ctx context.Context, h textproto.Header, b buffer.
 }
 func (c06AuthState) Close() error { return nil }
 
+// ---------------------------------------------------------------- scripted modifiers
+
+// c06ModErr is what a scripted modifier fails with (inside an SMTPError with a 4xx or 5xx code).
+type c06ModErr struct {
+	scope string
+	temp  bool
+}
+
+func (e *c06ModErr) Error() string { return "scripted failure of the modifiers of scope " + e.scope }
+
+type c06ModRec struct {
+	mu            sync.Mutex
+	states        int
+	closes        int
+	doubleClose   int // Close on a state object that is closed already
+	useAfterClose int // Rewrite* on a closed state object
+	failed        int // calls that failed as scripted
+}
+
+// c06Mod: the one modifier of a modifier group (`modifiers { … }` of the global scope "g", of the
+// source block "s", of destination block blk "b"). It rewrites nothing; it fails where the case says.
+type c06Mod struct {
+	scope string
+	blk   int
+	mf    *c06MF
+	rec   *c06ModRec
+}
+
+type c06ModState struct {
+	m      *c06Mod
+	closed bool
+}
+
+func (m *c06Mod) Init(*config.Map) error { return nil }
+func (m *c06Mod) Name() string           { return "verif_modifier" }
+func (m *c06Mod) InstanceName() string   { return "verif_modifier_" + m.scope + strconv.Itoa(m.blk) }
+
+func (m *c06Mod) ModStateForMsg(ctx context.Context, msgMeta *module.MsgMetadata) (module.ModifierState, error) {
+	m.rec.mu.Lock()
+	defer m.rec.mu.Unlock()
+	m.rec.states++
+	return &c06ModState{m: m}, nil
+}
+
+func (s *c06ModState) enter() {
+	s.m.rec.mu.Lock()
+	if s.closed {
+		s.m.rec.useAfterClose++
+	}
+	s.m.rec.mu.Unlock()
+}
+
+func (s *c06ModState) fail(kind byte) error {
+	s.m.rec.mu.Lock()
+	s.m.rec.failed++
+	s.m.rec.mu.Unlock()
+	inner := &c06ModErr{scope: s.m.scope, temp: kind == 't'}
+	if kind == 't' {
+		return &exterrors.SMTPError{Code: 451, EnhancedCode: exterrors.EnhancedCode{4, 4, 3}, Message: "scripted temporary modifier failure", Err: inner}
+	}
+	return &exterrors.SMTPError{Code: 550, EnhancedCode: exterrors.EnhancedCode{5, 1, 1}, Message: "scripted permanent modifier failure", Err: inner}
+}
+
+func (s *c06ModState) RewriteSender(ctx context.Context, from string) (string, error) {
+	s.enter()
+	if s.m.mf != nil && s.m.scope != "b" {
+		if k, ok := s.m.mf.sender[s.m.scope]; ok {
+			return "", s.fail(k)
+		}
+	}
+	return from, nil
+}
+
+func (s *c06ModState) RewriteRcpt(ctx context.Context, to string) ([]string, error) {
+	s.enter()
+	if s.m.mf != nil {
+		if k, ok := s.m.mf.rcpt[c06RcptId(to)][s.m.scope[0]]; ok {
+			return nil, s.fail(k)
+		}
+	}
+	return []string{to}, nil
+}
+
+func (s *c06ModState) RewriteBody(ctx context.Context, h *textproto.Header, b buffer.Buffer) error {
+	s.enter()
+	if s.m.mf != nil {
+		key := s.m.scope
+		if key == "b" {
+			key = strconv.Itoa(s.m.blk)
+		}
+		if k, ok := s.m.mf.body[key]; ok {
+			return s.fail(k)
+		}
+	}
+	return nil
+}
+
+func (s *c06ModState) Close() error {
+	s.m.rec.mu.Lock()
+	defer s.m.rec.mu.Unlock()
+	if s.closed {
+		s.m.rec.doubleClose++
+	}
+	s.closed = true
+	s.m.rec.closes++
+	return nil
+}
+
 // ---------------------------------------------------------------- recording targets
 
 type c06TgtErr struct{}
@@ -599,6 +859,7 @@ type c06Info struct {
 	rec       *c06Rec
 	tgts      []*c06Target
 	decoyHits int
+	modRec    *c06ModRec
 	obs       string
 	outcome   string   // what has to agree between the two body paths
 	nested    bool     // the outer pipeline of a nest op
@@ -611,6 +872,10 @@ func c06Why(err error) string {
 	var ce *c06Err
 	if errors.As(err, &ce) {
 		return "chk"
+	}
+	var me *c06ModErr
+	if errors.As(err, &me) {
+		return "mod"
 	}
 	var te c06TgtErr
 	if errors.As(err, &te) {
@@ -628,6 +893,7 @@ type c06Pipe struct {
 	p        *MsgPipeline
 	rec      *c06Rec
 	decoyRec *c06Rec
+	modRec   *c06ModRec
 	tgts     []*c06Target
 }
 
@@ -637,7 +903,10 @@ func (r *c06Rec) setCmd(k int) { r.mu.Lock(); r.cmd = k; r.mu.Unlock() }
 // nested: what a target of kind px stands for.
 func c06Build(c *c06Case, routes map[string]int, nested module.DeliveryTarget) *c06Pipe {
 	rec := &c06Rec{inst: map[int]int{}, instCmd: map[[2]int]int{}}
-	pp := &c06Pipe{rec: rec}
+	pp := &c06Pipe{rec: rec, modRec: &c06ModRec{}}
+	mods := func(scope string, blk int) modify.Group {
+		return modify.Group{Modifiers: []module.Modifier{&c06Mod{scope: scope, blk: blk, mf: c.mf, rec: pp.modRec}}}
+	}
 	checks := make([]module.Check, len(c.scripts))
 	for i := range c.scripts {
 		checks[i] = &c06Check{id: i, sc: &c.scripts[i], delays: c.delays[i], rec: rec}
@@ -655,7 +924,7 @@ func c06Build(c *c06Case, routes map[string]int, nested module.DeliveryTarget) *
 	}
 	blocks := make([]*rcptBlock, len(c.blocks))
 	for i, b := range c.blocks {
-		rb := &rcptBlock{checks: pick(b.checks)}
+		rb := &rcptBlock{checks: pick(b.checks), modifiers: mods("b", i)}
 		for _, t := range b.targets {
 			if c.tgts[t] == "px" {
 				rb.targets = append(rb.targets, nested)
@@ -689,12 +958,14 @@ func c06Build(c *c06Case, routes map[string]int, nested module.DeliveryTarget) *
 	}
 	pp.p = &MsgPipeline{
 		msgpipelineCfg: msgpipelineCfg{
-			globalChecks: globalChecks,
+			globalChecks:    globalChecks,
+			globalModifiers: mods("g", 0),
 			perSource: map[string]sourceBlock{
 				"decoy.example": {checks: []module.Check{decoy}, perRcpt: map[string]*rcptBlock{}, defaultRcpt: &rcptBlock{rejectErr: refuse}},
 			},
 			defaultSource: sourceBlock{
 				checks:      pick(c.source),
+				modifiers:   mods("s", 0),
 				perRcpt:     perRcpt,
 				defaultRcpt: &rcptBlock{rejectErr: refuse},
 			},
@@ -738,7 +1009,7 @@ func c06Run(c *c06Case) *c06Info {
 	}
 	op := c06Build(c, routes, nested)
 	rec := op.rec
-	info := &c06Info{c: c, rec: rec, tgts: op.tgts, status: map[int]bool{}, nested: c.inner != nil}
+	info := &c06Info{c: c, rec: rec, tgts: op.tgts, status: map[int]bool{}, nested: c.inner != nil, modRec: op.modRec}
 	p := op.p
 	ctx := context.Background()
 	meta := &module.MsgMetadata{ID: "verif", DontTraceSender: true, OriginalFrom: "sender@example.org", Quarantine: c.q0}
@@ -810,7 +1081,9 @@ func c06Run(c *c06Case) *c06Info {
 				info.bodyKind = "chk"
 			case kinds["dmarc"] > 0 && kinds["dmarc"] == n:
 				info.bodyKind = "dmarc"
-			case kinds["chk"] > 0 || kinds["dmarc"] > 0:
+			case kinds["mod"] > 0 && kinds["mod"] == n:
+				info.bodyKind = "mod"
+			case kinds["chk"] > 0 || kinds["dmarc"] > 0 || kinds["mod"] > 0:
 				info.bodyKind = "other:mixed-statuses"
 			default:
 				info.bodyKind = "ok"
@@ -1255,14 +1528,28 @@ func c06Monitor(out *vh.Out, op string, in *c06Info) {
 		}
 		return
 	}
+	// a command that failed with a modifier's error: that modifier group is scripted to fail on the
+	// command's subject (the modifiers' own errors are handed back as they are; nothing else may
+	// produce one)
+	if in.startRef && in.startWhy == "mod" && (c.mf == nil || len(c.mf.sender) == 0) {
+		out.Violation("C06/refused-without-reject", op, "MAIL failed with a modifier's error, no modifier is scripted to fail on the sender")
+	}
+	for k := range in.rcptRef {
+		if in.rcptRef[k] && in.rcptWhy[k] == "mod" && !c.mf.rcptFault(c.rcpts[k].id) {
+			out.Violation("C06/refused-without-reject", op, fmt.Sprintf("RCPT %d failed with a modifier's error, no modifier is scripted to fail on recipient %d", k+1, c.rcpts[k].id))
+		}
+	}
+	if in.bodyKind == "mod" && (c.mf == nil || len(c.mf.body) == 0) {
+		out.Violation("C06/refused-without-reject", op, "DATA failed with a modifier's error, no modifier is scripted to fail on the body")
+	}
 	if !odd {
-		if in.startRef {
+		if in.startRef && in.startWhy != "mod" {
 			if any, _ := rejIn(0); !any {
 				out.Violation("C06/refused-without-reject", op, "MAIL refused, no check returned a reject")
 			}
 		}
 		for k := range in.rcptRef {
-			if !in.rcptRef[k] {
+			if !in.rcptRef[k] || in.rcptWhy[k] == "mod" {
 				continue
 			}
 			any, own := rejIn(k + 1)
@@ -1335,7 +1622,7 @@ func c06Monitor(out *vh.Out, op string, in *c06Info) {
 			out.Violation("C06/inapplicable-check-called", op, fmt.Sprintf("check %d is referenced by no block this message went through", ci))
 		}
 	}
-	if dataRan && (in.bodyKind == "ok" || in.bodyKind == "tgt" || in.bodyKind == "dmarc") {
+	if dataRan && (in.bodyKind == "ok" || in.bodyKind == "tgt" || in.bodyKind == "dmarc" || in.bodyKind == "mod") {
 		want := map[int]map[string]bool{}
 		add := func(ci int, st string) {
 			if want[ci] == nil {
@@ -1350,6 +1637,15 @@ func c06Monitor(out *vh.Out, op string, in *c06Info) {
 		}
 		for k, r := range c.rcpts {
 			if in.rcptRef[k] {
+				// a recipient only the block's own RewriteRcpt failed for was handled in the scope of
+				// every check applying to it (they all let it pass): they saw it, once
+				if in.rcptWhy[k] == "mod" && c.mf != nil && len(c.mf.rcpt[r.id]) == 1 && c.mf.rcpt[r.id]['b'] != 0 {
+					for _, ci := range app(r) {
+						add(ci, "c")
+						add(ci, "s")
+						add(ci, fmt.Sprintf("r%d", r.id))
+					}
+				}
 				continue
 			}
 			for _, ci := range app(r) {
@@ -1370,6 +1666,14 @@ func c06Monitor(out *vh.Out, op string, in *c06Info) {
 	}
 	if in.rec.lateCall > 0 {
 		out.Stat("note.call-on-closed-state")
+	}
+	if in.modRec != nil {
+		if in.modRec.doubleClose > 0 {
+			out.Stat("note.modifier-state-closed-twice")
+		}
+		if in.modRec.useAfterClose > 0 {
+			out.Stat("note.modifier-state-used-after-close")
+		}
 	}
 }
 
@@ -1419,6 +1723,51 @@ func c06Stats(out *vh.Out, in *c06Info) {
 	}
 	if c.q0 {
 		out.Stat("preflagged")
+	}
+	if !c.mf.empty() {
+		out.Stat("mf")
+		if in.startRef && in.startWhy == "mod" {
+			out.Stat("mf.mail-failed-in-modifier")
+		}
+		if in.bodyKind == "mod" {
+			out.Stat("mf.data-failed-in-modifier")
+		}
+		accBlk := map[int]bool{} // blocks with an accepted recipient so far
+		hit := map[int]bool{}    // blocks in which a LATER recipient failed in the block's own modifiers
+		for k, r := range c.rcpts {
+			if k >= len(in.rcptRef) {
+				break
+			}
+			switch {
+			case !in.rcptRef[k]:
+				accBlk[r.blk] = true
+				if hit[r.blk] {
+					out.Stat("mf.block-recipient-accepted-after-a-failure")
+				}
+			case in.rcptWhy[k] == "mod":
+				sc := "gs"
+				if len(accBlk) > 0 && c.mf.rcpt[r.id]['b'] == 0 {
+					out.Stat("mf.rcpt-failed-in-global-or-source-modifier-after-an-accepted-one")
+				}
+				if len(c.mf.rcpt[r.id]) == 1 && c.mf.rcpt[r.id]['b'] != 0 {
+					sc = "b"
+					if accBlk[r.blk] {
+						hit[r.blk] = true
+					}
+				}
+				out.Stat("mf.rcpt-failed-in-modifier." + sc)
+			}
+		}
+		if len(hit) > 0 && !in.startRef && in.bodyKind != "none" {
+			out.Stat("mf.block-with-accepted-rcpt-had-later-modifier-failure.data-" + in.bodyKind)
+			for b := range hit {
+				for _, ci := range c.blocks[b].checks {
+					if p := c.scripts[ci].body.proper(); p == "r" || p == "q" {
+						out.Stat("mf.block-with-accepted-rcpt-had-later-modifier-failure.block-check-body-verdict-" + p)
+					}
+				}
+			}
+		}
 	}
 	out.Stat("mode." + c.mode)
 	out.Stat("dmarc." + c.dmarc)
@@ -1525,6 +1874,7 @@ func c06Clone(c *c06Case) *c06Case {
 		n.scripts = append(n.scripts, c06Script{s.conn, s.sender, s.body, m})
 	}
 	n.delays = append([][4]int(nil), c.delays...)
+	n.mf = c.mf.clone()
 	if c.inner != nil {
 		n.inner = c06Clone(c.inner)
 	}
@@ -1632,7 +1982,78 @@ func c06Gen(r *vh.Rng, big bool) *c06Case {
 	c := c06GenOpt(r, c06Opt{big: big})
 	// the message may come flagged: this pipeline as the target of another one, or an endpoint that flags
 	c.q0 = r.Chance(12)
+	if r.Chance(35) {
+		if m := c06GenMF(r, c); !m.empty() {
+			c.mf = m
+		}
+	}
 	return c
+}
+
+// c06GenMF: failing modifiers.  Favoured: one recipient of a destination block accepted, a LATER
+// recipient (another address) of the SAME block fails in the block's own RewriteRcpt, whatever
+// follows follows, and a check of that block has something to say about the body.
+func c06GenMF(r *vh.Rng, c *c06Case) *c06MF {
+	m := c06NewMF()
+	kind := func() byte { return r.Pick("t", "p")[0] }
+	if r.Chance(8) {
+		m.sender[r.Pick("g", "s")] = kind()
+	}
+	// positions k >= 1 with an earlier recipient j (another address; sameBlk: routed to the same block)
+	later := func(sameBlk bool) (cands [][2]int) {
+		for k := 1; k < len(c.rcpts); k++ {
+			for j := 0; j < k; j++ {
+				if c.rcpts[j].id != c.rcpts[k].id && (!sameBlk || c.rcpts[j].blk == c.rcpts[k].blk) {
+					cands = append(cands, [2]int{j, k})
+					break
+				}
+			}
+		}
+		return
+	}
+	if r.Chance(75) {
+		// which modifier group fails for the later recipient: mostly its own block's, sometimes the
+		// global / source group (then the earlier recipient may be of any block)
+		scope := r.Pick("b", "b", "b", "b", "g", "s")[0]
+		cands := later(scope == 'b')
+		if len(cands) == 0 && scope == 'b' && len(c.rcpts) >= 2 && r.Chance(60) {
+			// route the last recipient's address to the block of an earlier, different one
+			k := len(c.rcpts) - 1
+			for j := 0; j < k; j++ {
+				if c.rcpts[j].id != c.rcpts[k].id {
+					for i := range c.rcpts {
+						if c.rcpts[i].id == c.rcpts[k].id {
+							c.rcpts[i].blk = c.rcpts[j].blk
+						}
+					}
+					break
+				}
+			}
+			cands = later(true)
+		}
+		if len(cands) > 0 {
+			jk := cands[r.Intn(len(cands))]
+			m.setRcpt(c.rcpts[jk[1]].id, scope, kind())
+			// the block of the recipient accepted before has something to say about the body
+			blk := c.blocks[c.rcpts[jk[0]].blk]
+			if len(blk.checks) > 0 && r.Chance(65) {
+				ci := blk.checks[r.Intn(len(blk.checks))]
+				c.scripts[ci].body = c06V{'1', r.Pick("r", "q")[0]}
+			}
+		}
+	}
+	for _, rc := range c.rcpts {
+		if r.Chance(12) {
+			m.setRcpt(rc.id, r.Pick("g", "s", "b", "b")[0], kind())
+		}
+	}
+	if r.Chance(10) {
+		m.body[r.Pick("g", "s")] = kind()
+	}
+	if r.Chance(10) {
+		m.body[strconv.Itoa(r.Intn(len(c.blocks)))] = kind()
+	}
+	return m
 }
 
 // c06GenNest: a pipeline behind destination blocks of another pipeline.
